@@ -38,6 +38,7 @@ type propCfg struct {
 	QuickSec     float64
 	ThoroughSec  float64
 	Yield        string // files that get statement-level yields
+	Owner        string // files whose structs are actor-owned (race tracker)
 	Technique    string
 	Faults       []string
 }
@@ -99,11 +100,11 @@ func scratchRoot() string {
 }
 
 // ensureBuild returns the directory holding the worker built from the current trees.
-func ensureBuild(yield string) (dir string, fp string) {
+func ensureBuild(yield, owner string) (dir string, fp string) {
 	repoFP := fingerprint(repoDir)
 	toolFP := fingerprint(verifDir)
 	fp = repoFP
-	key := fingerprint("/nonexistent", repoFP, toolFP, yield)
+	key := fingerprint("/nonexistent", repoFP, toolFP, yield, owner)
 	root := scratchRoot()
 	os.MkdirAll(root, 0755)
 	dir = filepath.Join(root, "build-"+key)
@@ -118,7 +119,7 @@ func ensureBuild(yield string) (dir string, fp string) {
 	cleanup = append(cleanup, func() { os.RemoveAll(tmp) })
 	defer os.RemoveAll(tmp)
 	cmd := exec.Command(filepath.Join(verifDir, "build_sim.sh"), filepath.Join(tmp, "t"))
-	cmd.Env = append(os.Environ(), "VERIF_YIELD="+yield, "VERIF_REPO="+repoDir)
+	cmd.Env = append(os.Environ(), "VERIF_YIELD="+yield, "VERIF_OWNER="+owner, "VERIF_REPO="+repoDir)
 	out, err := cmd.CombinedOutput()
 	if err != nil {
 		fmt.Fprintf(os.Stderr, "%s\n", out)
@@ -310,7 +311,7 @@ func main() {
 		seed = n
 	}
 	start := time.Now()
-	buildDir, fp := ensureBuild(cfg.Yield)
+	buildDir, fp := ensureBuild(cfg.Yield, cfg.Owner)
 	worker := filepath.Join(buildDir, "worker")
 	buildS := time.Since(start).Seconds()
 
